@@ -70,6 +70,10 @@ func (vc *VC) inlineCall(f *ssa.Function, key string, args []SVal, pos token.Pos
 		vc.vals[p] = vc.coerce(args[i], p.Type())
 	}
 	vc.inlR = vc.R[sCur]
+	if vc.inlGuard != "" {
+		vc.inlR = vc.def("Rg", SBool, and(vc.R[sCur], vc.inlGuard))
+		vc.inlGuard = ""
+	}
 	vc.inlMem = vc.curMem
 	for _, b := range rpo(f, vc.isBack) {
 		vc.execBlock(b)
@@ -226,4 +230,56 @@ func (vc *VC) autoInvs(l *loopInfo) []*Clause {
 	_ = bound
 	e := &EBin{"&&", &EBin{"<=", &EInt{"0"}, &EIdent{"rangeint.iter"}}, &EBin{"<", &EIdent{"rangeint.iter"}, &EIdent{"rangeint.bound"}}}
 	return []*Clause{{Kind: "invariant", Text: "auto (range-over-int lowering): 0 <= counter && counter < n", E: e, Loop: l.ord, Ord: 900 + l.ord}}
+}
+
+// sortSearch: sort.Search(n, f) with f a function literal of this function. What the binary search
+// guarantees for ANY predicate (no monotonicity needed) is its own loop invariant at exit:
+// 0 <= r <= n, f(r) if r < n, !f(r-1) if r > 0. Both applications are ground, so the literal's
+// body is executed in place twice (under the guards r < n and r > 0; its safety obligations become
+// obligations of the caller under those guards). The literal must not write memory.
+func (vc *VC) sortSearch(c *ssa.CallCommon, pos token.Pos) (SVal, bool) {
+	mc, ok := c.Args[1].(*ssa.MakeClosure)
+	if !ok {
+		return SVal{}, false
+	}
+	fn, ok := mc.Fn.(*ssa.Function)
+	if !ok || len(fn.Params) != 1 || len(fn.Blocks) == 0 || len(fn.Blocks) > 10 {
+		return SVal{}, false
+	}
+	for _, b := range fn.Blocks {
+		for _, s := range b.Succs {
+			if s.Dominates(b) {
+				return SVal{}, false
+			}
+		}
+		for _, ins := range b.Instrs {
+			switch ins.(type) {
+			case *ssa.Store, *ssa.Call, *ssa.Defer, *ssa.Go, *ssa.Select, *ssa.MakeClosure, *ssa.MapUpdate, *ssa.Send:
+				return SVal{}, false
+			}
+		}
+	}
+	if len(vc.inl) > 0 {
+		return SVal{}, false
+	}
+	vc.note("sort.Search with a function literal: result r with 0 <= r <= n, f(r) if r < n, !f(r-1) if r > 0 (the exit state of the binary search, valid for any predicate; the literal is executed in place at those two points)")
+	R := vc.R[vc.cur]
+	n := vc.val(c.Args[0])
+	r := vc.fresh(types.Typ[types.Int], "search")
+	vc.fact(R, and(le("0", r.S), le(r.S, n.S)))
+	for i, fv := range fn.FreeVars {
+		vc.vals[fv] = vc.val(mc.Bindings[i])
+	}
+	apply := func(arg, guard string) string {
+		vc.inlGuard = guard
+		res := vc.inlineCall(fn, fn.String(), []SVal{intV(arg, types.Typ[types.Int])}, pos)
+		return res.S
+	}
+	g1 := lt(r.S, n.S)
+	f1 := apply(r.S, g1)
+	vc.fact(R, implies(g1, f1))
+	g2 := lt("0", r.S)
+	f2 := apply(sub(r.S, "1"), g2)
+	vc.fact(R, implies(g2, not(f2)))
+	return r, true
 }
